@@ -166,3 +166,20 @@ var verifC17Witnesses = []verifC17Witness{
 	{"C17/interp.skipFile/post:file-name-rule[tag-named-like-os]", func() (interface{}, interface{}) { return verifSkip(verifCtx("linux", "amd64", "darwin"), "foo_darwin.go", true) }},
 	{"C17/interp.skipFile/post:file-name-rule[table-gap]", func() (interface{}, interface{}) { return verifSkip(verifCtx("linux", "amd64"), "foo_zos.go", true) }},
 }
+
+func init() {
+	// C17: a file rejected by its own constraint contributes no yaegi:tags; a file's own yaegi:tags do not
+	// satisfy its own constraint
+	verifProtocolScenarios = append(verifProtocolScenarios, verifScenario{"C17/interp.Interpreter.buildOk/*", func() (bool, string) {
+		i := New(Options{})
+		ctx := build.Default
+		ctx.BuildTags = nil
+		ok1, err1 := i.buildOk(&ctx, "a.go", "// +build never\n// yaegi:tags leaked\n\npackage p\n")
+		tagsAfter := fmt.Sprint(ctx.BuildTags)
+		ctx2 := build.Default
+		ctx2.BuildTags = nil
+		ok2, err2 := i.buildOk(&ctx2, "b.go", "// +build selfmade\n// yaegi:tags selfmade\n\npackage p\n")
+		bad := ok1 || err1 != nil || tagsAfter != "[]" || ok2 || err2 != nil
+		return bad, fmt.Sprintf("rejected file: ok=%v err=%v, context tags afterwards %s (want []); self-tagged file: ok=%v err=%v (want false)", ok1, err1, tagsAfter, ok2, err2)
+	}})
+}
